@@ -121,6 +121,7 @@ inductive Req
   | put (p : Path) (body : Body) (ifMatch : Option Nat) (ifMatchRaw : Bool) (ifNoneMatchStar : Bool)
       (ifMatchColl : Option (List (String × Nat) × List (String × String)) := none)
   | delete (p : Path) (ifMatch : Option (Option Nat))      -- none = no header / "*"; some none = foreign etag
+      (ifMatchColl : Option (List (String × Nat) × List (String × String)) := none)   -- the header as a collection ETag
   | move (src dst : Path) (overwrite : Bool)
   | proppatch (p : Path) (set : List (String × String)) (remove : List String) (setsType : Bool) (badBody : Bool)
   | get (p : Path)
@@ -348,7 +349,8 @@ def putU (cfg : Cfg) (rights : Rights) (user : String) (s : Store) (p : Path) (b
     | none => ({ status := 409 }, none)
     | some pc => putDispatch cfg rights user p body pc (resolve s p) ifMatch ifMatchRaw ifNoneMatchStar ifMatchColl
 
-def deleteU (cfg : Cfg) (rights : Rights) (user : String) (s : Store) (p : Path) (ifMatch : Option (Option Nat)) : Resp × Option Update :=
+def deleteU (cfg : Cfg) (rights : Rights) (user : String) (s : Store) (p : Path) (ifMatch : Option (Option Nat))
+    (ifMatchColl : Option (List (String × Nat) × List (String × String)) := none) : Resp × Option Update :=
     if !check rights user p 'w' .nothing then (forbiddenNA, none)
     else match resolve s p with
       | .absent => ({ status := 404 }, none)
@@ -359,7 +361,8 @@ def deleteU (cfg : Cfg) (rights : Rights) (user : String) (s : Store) (p : Path)
       | .coll _ c =>
         let subj := if c.tag = .none then Subject.collPlain else .collTagged
         if !check rights user p 'w' subj then (forbiddenNA, none)
-        else if ifMatch.isSome then ({ status := 412 }, none)      -- an item ETag never equals a collection ETag
+        -- If-Match on a collection compares with the collection's ETag
+        else if ifMatch.isSome && ifMatchColl ≠ some (collEtag c) then ({ status := 412 }, none)
         else if cfg.permitDelete && check rights user p 'd' subj then (forbiddenNA, none)
         else if !cfg.permitDelete && !check rights user p 'D' subj then (forbiddenNA, none)
         else if p = [] then ({ status := 200 }, some .resetRoot)   -- the root is re-created on the next access
@@ -478,7 +481,7 @@ def handleU (cfg : Cfg) (rights : Rights) (user : String) (s : Store) : Req → 
   | .mkcol p tag props badBody => mkcolU cfg rights user s p tag props badBody
   | .mkcalendar p props badBody => mkcalendarU cfg rights user s p props badBody
   | .put p body ifMatch ifMatchRaw ifNoneMatchStar ifMatchColl => putU cfg rights user s p body ifMatch ifMatchRaw ifNoneMatchStar ifMatchColl
-  | .delete p ifMatch => deleteU cfg rights user s p ifMatch
+  | .delete p ifMatch imc => deleteU cfg rights user s p ifMatch imc
   | .move src dst overwrite => moveU cfg rights user s src dst overwrite
   | .proppatch p set remove setsType badBody => proppatchU cfg rights user s p set remove setsType badBody
   | .get p => getU cfg rights user s p
